@@ -125,6 +125,18 @@ def check_case(run, fbp, keys, vals, interp_defs, kind, g, cards):
             dflt = ("ok", env.substituter.substitute(f, subs, interpretations={k: FunctionInterpretation(list(p), b) for k, (p, b) in interps.items()} or None))
         except Exception as e:
             dflt = ("raised", type(e).__name__)
+        # the convenience entry points (FNode.substitute, shortcuts.substitute) are the default substituter too;
+        # an empty map may be given as None
+        fis = {k: FunctionInterpretation(list(p), b) for k, (p, b) in interps.items()} or None
+        for label, call in (("FNode.substitute", lambda: f.substitute(subs or None, interpretations=fis)),
+                            ("shortcuts.substitute", lambda: __import__("pysmt.shortcuts", fromlist=["substitute"]).substitute(f, subs or None, interpretations=fis))):
+            try:
+                alt = ("ok", call())
+            except Exception as e:
+                alt = ("raised", type(e).__name__)
+            if alt != dflt and not (alt[0] == "raised" and dflt[0] == "raised"):
+                run.fail({"subcheck": "subst:entry-point-differs", "entry": label}, case,
+                         "%s gives %r, env.substituter.substitute %r\n formula=%s" % (label, alt, dflt, show(b0, 300)))
         if dflt != results[0][1] and not (dflt[0] == "raised" and results[0][1][0] == "raised"):
             run.fail({"subcheck": "subst:default-is-not-mgs"}, case, "env.substituter gives %r, MGSubstituter %r" % (dflt, results[0][1]))
         for mode, got, ref in results:
